@@ -39,6 +39,15 @@ RACE_LVSS = [H("races", "race_lvss", 2, 3, args=[4, 0, 0], **{"max-failures": 60
 
 CHECKS = {
     "C19": {"harnesses": C19_HARNESSES},
+    "C07": {
+        "harnesses": [H("timers", "tim_single", 2, 3, args=list(a)) for a in (
+            (2, 3, 0, 0), (3, 2, 0, 0), (4, 2, 0, 0), (2, 4, 0, 0), (0, 1, 0, 0), (1, 0, 0, 0), (4, 4, 0, 0), (4, 2, 1, 0), (2, 2, 1, 0), (0, 4, 1, 0),
+            (2, 3, 0, 1), (4, 2, 0, 1), (4, 4, 0, 1), (4, 2, 1, 1), (0, 1, 0, 1))] + [
+            H("timers", "tim_unsafe", 0, 0),
+            H("timers", "tim_clockmath"),
+            H("sched", "sch_timed_plain", 2, 3),
+        ],
+    },
     "C13": {"harnesses": [H("streams", "strm_seq", args=[a]) for a in range(12)] + [H("streams", "strm_sources")]},
     "C17": {
         "harnesses": [
